@@ -23,6 +23,7 @@ import (
 	"pgregory.net/rapid"
 
 	"verif/internal/boxwalk"
+	"verif/internal/esgen"
 	"verif/internal/harness"
 )
 
@@ -37,10 +38,12 @@ type esCase struct {
 	Data   harness.HexBytes `json:"data"`
 	P      int              `json:"p"` // small parameter (NAL type, flags, lengths) interpreted by the target
 	Origin string           `json:"origin,omitempty"`
+	pure   bool             // grammar origin without hostile hook and without byte mutation (evidence only)
 }
 
 // ---------------------------------------------------------------------------------------------
-// targets. Each returns true when the library returned a value (not an error).
+// targets. Each returns true when the library returned a value (not an error). (Four more targets, which parse
+// parameter sets and slice headers with maps built from the same input, are added by grammar_test.go.)
 
 var (
 	avcSPSMap  map[uint32]*avc.SPS
@@ -598,6 +601,8 @@ func seedsFor(target string) [][]byte {
 		return seeds.avcSlice
 	case target == "avc.ParseSEINalu":
 		return seeds.avcSEI
+	case strings.Contains(target, "+"): // the additional targets of grammar_test.go
+		return compoundSeeds(target)
 	case target == "avc.DecodeAVCDecConfRec":
 		return seeds.avcC
 	case strings.Contains(target, "hevc.ParseSPS"), target == "hevc.CreateHEVCDecConfRec":
@@ -785,6 +790,10 @@ func genCase(t *rapid.T) esCase {
 		strings.HasSuffix(c.Target, ".HasParameterSets") || strings.HasSuffix(c.Target, ".GetParameterSets")
 	isStream := strings.Contains(c.Target, "ByteStream") && !strings.Contains(c.Target, "ConvertSampleToByteStream")
 	nat := seedsFor(c.Target)
+	if kind, pct := grammarKind(c.Target); kind != gNone && esgen.HEVCPct(t, pct, "grammar?") {
+		genGrammar(t, &c, kind)
+		return c
+	}
 	mode := rapid.IntRange(0, 9).Draw(t, "mode")
 	switch {
 	case isSampleWalker && mode < 7:
@@ -819,11 +828,26 @@ func TestES(t *testing.T) {
 	}
 	harness.RunRapid(t, "es", func(rt *rapid.T) {
 		c := genCase(rt)
+		if name := knownShape(&c); name != "" && avoidKnown[name] {
+			harness.Rec.Exclude(name) // a recorded defect of the unchanged library (see avoidKnown): not executed
+			return
+		}
 		raw, _ := json.Marshal(c)
 		harness.SetCurrentCase("es", raw)
 		f := checkES(c)
-		nt := lastReturned || c.Origin == "mutated-seed" || c.Origin == "hostile-sample" || c.Origin == "hostile-bytestream" || c.Origin == "hostile-sei"
+		grammar := strings.HasPrefix(c.Origin, "grammar")
+		nt := lastReturned || grammar || c.Origin == "mutated-seed" || c.Origin == "hostile-sample" || c.Origin == "hostile-bytestream" || c.Origin == "hostile-sei"
 		cls := []string{"origin-" + c.Origin, "target-" + c.Target}
+		if grammar {
+			cls = append(cls, "origin-"+c.Origin+"@"+c.Target)
+			if c.pure { // an unmodified valid tree: does the target accept it? (measures the packaging, not the library)
+				if lastReturned {
+					cls = append(cls, "grammar-valid-accepted@"+c.Target)
+				} else {
+					cls = append(cls, "grammar-valid-rejected@"+c.Target)
+				}
+			}
+		}
 		if lastReturned {
 			cls = append(cls, "returned-value")
 		} else {
